@@ -786,6 +786,12 @@ func RunCases(in, out string) error {
 			if uerr == nil {
 				emit(execMesh(c, id))
 			}
+		case "arr":
+			var c arrCase
+			uerr = json.Unmarshal(sc.Bytes(), &c)
+			if uerr == nil {
+				emit(execArr(c, id))
+			}
 		case "boxhist":
 			var c boxHist
 			uerr = json.Unmarshal(sc.Bytes(), &c)
